@@ -405,6 +405,37 @@ func wrClass(file bool, m string, a []string) string {
 	return "read"
 }
 
+var wrFnNames = func() map[string]bool {
+	m := map[string]bool{}
+	for i := 1; i < 200; i++ {
+		n := avfs.FnVFS(i).String()
+		if strings.HasPrefix(n, "FnVFS(") {
+			break
+		}
+		m["Fn"+strings.TrimPrefix(n, "Fn")] = true
+	}
+	return m
+}()
+
+// wrExpectedFn: the id a method is expected to consult first ("" when it has none of its own).
+func wrExpectedFn(file bool, m string) string {
+	n := "Fn" + m
+	if file {
+		n = "FnFile" + m
+		if m == "WriteString" {
+			n = "FnFileWrite"
+		}
+	} else if m == "Open" {
+		n = "FnOpenFile"
+	} else if m == "WriteFile" {
+		return "" // FnWriteFile exists but WriteFile is the composite over OpenFile/Write/Close
+	}
+	if wrFnNames[n] {
+		return n
+	}
+	return ""
+}
+
 func wrPermErr(e string) bool { return e == "E13" || e == "E1" }
 
 // ---------------------------------------------------------------------------
@@ -686,6 +717,11 @@ func (w *wrWorld) step(op wrOp, cover map[string]int) (string, string) {
 			runTwin = !wrPermErr(ans.err)
 		}
 	case "failfs":
+		// every method that has a FnVFS id of its own consults it first - on the FailFS and on
+		// every object it handed out
+		if want := wrExpectedFn(op.file, op.m); want != "" && (len(w.consults) == 0 || strings.TrimSuffix(w.consults[0], "*") != want) {
+			fails = append(fails, "not-consulted")
+		}
 		switch {
 		case w.plan == "ro":
 			if changed {
@@ -1229,9 +1265,14 @@ func runWrap(cfg config, kind string) {
 		for _, baseKind := range []string{"mem", "orefa"} {
 			for _, fm := range strings.Split(focus, ",") {
 				for rep := 0; rep < 6; rep++ {
-					rr, _ := wrRunHistory(kind, baseKind, uint64(2+rep), "none", wrFocusOps(baseKind, fm, uint64(rep)), nil, 0, cover)
+					fops := wrFocusOps(baseKind, fm, uint64(rep))
+					rr, _ := wrRunHistory(kind, baseKind, uint64(2+rep), "none", fops, nil, 0, cover)
 					emit(rr)
 					o.count("history:focus:" + fm)
+					if kind == "failfs" {
+						rr, _ := wrRunHistory(kind, baseKind, uint64(2+rep), "ro", fops, nil, 0, cover)
+						emit(rr)
+					}
 				}
 			}
 		}
